@@ -1,4 +1,5 @@
 import ComposeVerif.Model.EnvLayers
+import ComposeVerif.Model.EnvLayersOrder
 import ComposeVerif.Spec.EnvLayers
 /-! Helper lemmas for C16: association lists, `parseLines` / `loadEnvFiles` against the specification. -/
 namespace CV.EnvLayers
@@ -622,6 +623,110 @@ theorem loadEnvFiles_congr_penv (penv penv' : List (Key × Str)) (fs : FS) (h : 
     cases loadEnvFile fs f (envChain penv' acc) with
     | error _ => rfl
     | ok vars => exact ih _
+
+/-! ### any iteration order -/
+
+theorem MapEq.refl {β : Type} (m : List (Key × β)) : MapEq m m := fun _ => rfl
+theorem MapEq.symm {β : Type} {m m' : List (Key × β)} (h : MapEq m m') : MapEq m' m := fun k => (h k).symm
+theorem MapEq.trans {β : Type} {a b c : List (Key × β)} (h1 : MapEq a b) (h2 : MapEq b c) : MapEq a c :=
+  fun k => (h1 k).trans (h2 k)
+
+theorem mapEq_of_perm {β : Type} (m m' : List (Key × β)) (hd : Distinct m) (hp : m.Perm m') : MapEq m m' :=
+  fun k => lookup_perm k m m' hd hp
+
+/-- `OverrideBy` respects map equality of the receiver and any listing of a Go map argument -/
+theorem overrideBy_congr {β : Type} (m m0 other other' : List (Key × β)) (hm : MapEq m m0) (hd : Distinct other)
+    (hp : other.Perm other') : MapEq (overrideBy m other') (overrideBy m0 other) := by
+  intro k
+  rw [lookup_overrideBy k m other' (distinct_perm _ _ hd hp), lookup_overrideBy k m0 other hd,
+    ← lookup_perm k other other' hd hp, hm k]
+
+theorem overrideBy_congr_arg {β : Type} (m other other2 : List (Key × β)) (hd : Distinct other) (hd2 : Distinct other2)
+    (h : MapEq other other2) : MapEq (overrideBy m other) (overrideBy m other2) := by
+  intro k
+  rw [lookup_overrideBy k m other hd, lookup_overrideBy k m other2 hd2, h k]
+
+theorem rangeOverride_sound {β : Type} (m m0 other res : List (Key × β)) (hm : MapEq m m0) (hd : Distinct other)
+    (h : RangeOverride m other res) : Distinct res ∧ MapEq res (overrideBy m0 other) := by
+  obtain ⟨other', hp, hdr, hres⟩ := h
+  exact ⟨hdr, hres.trans (overrideBy_congr m m0 other other' hm hd hp)⟩
+
+theorem rangeResolve_sound (look : Look) (m res : List (Key × Option Str)) (hd : Distinct m)
+    (h : RangeResolve look m res) : Distinct res ∧ MapEq res (resolveMWE look m) := by
+  obtain ⟨m', hp, hdr, hres⟩ := h
+  refine ⟨hdr, fun k => ?_⟩
+  rw [hres k, lookup_resolveMWE, lookup_resolveMWE, ← lookup_perm k m m' hd hp]
+
+theorem mapEq_toMWE (a b : List (Key × Str)) (h : MapEq a b) : MapEq (toMWE a) (toMWE b) := by
+  intro k; rw [lookup_toMWE, lookup_toMWE, h k]
+
+theorem loadEnvFile_distinct (fs : FS) (f : EnvFile) (look : Look) (vars : List (Key × Str))
+    (h : loadEnvFile fs f look = .ok vars) : Distinct vars := by
+  rcases loadEnvFile_ok fs f look vars h with ⟨_, _, hv⟩ | ⟨ls, _, _, hp⟩
+  · subst hv; exact distinct_nil
+  · exact parseLines_distinct _ _ _ _ distinct_nil hp
+
+theorem loadLabelFile_distinct (fs : FS) (p : Str) (look : Look) (vars : List (Key × Str))
+    (h : loadLabelFile fs p look = .ok vars) : Distinct vars := by
+  obtain ⟨ls, _, hp⟩ := loadLabelFile_ok fs p look vars h
+  exact parseLines_distinct _ _ _ _ distinct_nil hp
+
+theorem envChain_congr (penv acc acc0 : List (Key × Str)) (h : MapEq acc acc0) : envChain penv acc = envChain penv acc0 := by
+  funext n; simp only [envChain, h n]
+
+theorem labelChain_congr (acc acc0 : List (Key × Str)) (h : MapEq acc acc0) : labelChain acc = labelChain acc0 := by
+  funext n; simp only [labelChain, h n]
+
+/-- the list-order loop, generically (`loadEnvFiles` / `loadLabelFiles` are instances) -/
+def filesLoop {α : Type} (load : α → Look → Except Err (List (Key × Str))) (chain : List (Key × Str) → Look) :
+    List α → List (Key × Str) → Except Err (List (Key × Str))
+  | [], acc => .ok acc
+  | f :: r, acc =>
+    match load f (chain acc) with
+    | .error e => .error e
+    | .ok vars => filesLoop load chain r (overrideBy acc vars)
+
+theorem loadEnvFiles_eq_filesLoop (penv : List (Key × Str)) (fs : FS) (efs : List EnvFile) (acc : List (Key × Str)) :
+    loadEnvFiles penv fs efs acc = filesLoop (loadEnvFile fs) (envChain penv) efs acc := by
+  induction efs generalizing acc with
+  | nil => rfl
+  | cons f r ih =>
+    simp only [loadEnvFiles, filesLoop]
+    cases loadEnvFile fs f (envChain penv acc) with
+    | error e => rfl
+    | ok vars => exact ih _
+
+theorem loadLabelFiles_eq_filesLoop (fs : FS) (ps : List Str) (acc : List (Key × Str)) :
+    loadLabelFiles fs ps acc = filesLoop (loadLabelFile fs) labelChain ps acc := by
+  induction ps generalizing acc with
+  | nil => rfl
+  | cons f r ih =>
+    simp only [loadLabelFiles, filesLoop]
+    cases loadLabelFile fs f (labelChain acc) with
+    | error e => rfl
+    | ok vars => exact ih _
+
+/-- how an any-order outcome relates to the list-order outcome -/
+def Agrees {β : Type} (a b : Except Err (List (Key × β))) : Prop :=
+  match a, b with
+  | .ok x, .ok y => MapEq x y
+  | .error e, .error e' => e = e'
+  | _, _ => False
+
+theorem filesRun_agrees {α : Type} (load : α → Look → Except Err (List (Key × Str))) (chain : List (Key × Str) → Look)
+    (hchain : ∀ a b, MapEq a b → chain a = chain b)
+    (hdist : ∀ f look vars, load f look = .ok vars → Distinct vars)
+    (fsl : List α) (acc : List (Key × Str)) (res : Except Err (List (Key × Str)))
+    (h : FilesRun load chain fsl acc res) (acc0 : List (Key × Str)) (hacc : MapEq acc acc0) :
+    Agrees res (filesLoop load chain fsl acc0) := by
+  induction h generalizing acc0 with
+  | nil acc => exact hacc
+  | fail f r acc e hl =>
+    simp only [filesLoop, ← hchain _ _ hacc, hl]
+    rfl
+  | step f r acc vars acc1 res hl ho _ ih =>
+    simp only [filesLoop, ← hchain _ _ hacc, hl]
+    exact ih _ (rangeOverride_sound acc acc0 vars acc1 hacc (hdist _ _ _ hl) ho).2
 
 /-! ### value-less entries resolved while loading -/
 
